@@ -2,12 +2,53 @@
 #pragma once
 #include "simheap.hpp"
 
+#include <cstdio>
+#include <map>
 #include <type_traits>
 
 #include <foonathan/memory/memory_arena.hpp>
 
 namespace sim
 {
+    // What kind of request each upstream allocation was (node / array, count, element size): the release has to come
+    // through the matching function with the same shape, not just with the same address and number of bytes
+    // (seeded change C05-w9-2: blocks taken with allocate_array and given back with deallocate_node).
+    struct UpstreamKinds
+    {
+        struct K
+        {
+            bool        array;
+            std::size_t count, size;
+        };
+        std::map<void*, K> m;
+        static UpstreamKinds& get()
+        {
+            static UpstreamKinds k;
+            return k;
+        }
+        void taken(void* p, bool array, std::size_t count, std::size_t size)
+        {
+            m[p] = K{array, count, size}; // (an entry an abandoned run left behind is overwritten)
+        }
+        void given_back(void* p, bool array, std::size_t count, std::size_t size)
+        {
+            auto it = m.find(p);
+            if (it == m.end())
+                return; // (unknown pointer: the ledger of SimHeap reports it)
+            auto k = it->second;
+            m.erase(it);
+            if (k.array != array || k.count != count || k.size != size)
+            {
+                char buf[256];
+                std::snprintf(buf, sizeof buf,
+                              "upstream_release_kind taken as %s(count %zu, size %zu), given back as %s(count %zu, "
+                              "size %zu)",
+                              k.array ? "array" : "node", k.count, k.size, array ? "array" : "node", count, size);
+                SimHeap::get().set_pending(buf);
+            }
+        }
+    };
+
     // Stateful RawAllocator. Identity (owner id) travels with copies/moves, as a real stateful allocator's
     // resource handle would.
     class sim_raw_allocator
@@ -22,11 +63,26 @@ namespace sim
             void* p = SimHeap::get().request(owner_, size, alignment);
             if (!p)
                 throw sim_bad_alloc();
+            UpstreamKinds::get().taken(p, false, 1, size);
             return p;
         }
         void deallocate_node(void* p, std::size_t size, std::size_t alignment) noexcept
         {
+            UpstreamKinds::get().given_back(p, false, 1, size);
             SimHeap::get().release(owner_, p, size, alignment, false);
+        }
+        void* allocate_array(std::size_t count, std::size_t size, std::size_t alignment)
+        {
+            void* p = SimHeap::get().request(owner_, count * size, alignment);
+            if (!p)
+                throw sim_bad_alloc();
+            UpstreamKinds::get().taken(p, true, count, size);
+            return p;
+        }
+        void deallocate_array(void* p, std::size_t count, std::size_t size, std::size_t alignment) noexcept
+        {
+            UpstreamKinds::get().given_back(p, true, count, size);
+            SimHeap::get().release(owner_, p, count * size, alignment, false);
         }
         std::size_t max_node_size() const noexcept
         {
@@ -58,11 +114,26 @@ namespace sim
             void* p = SimHeap::get().request(owner_, size, alignment);
             if (!p)
                 throw sim_bad_alloc();
+            UpstreamKinds::get().taken(p, false, 1, size);
             return p;
         }
         void deallocate_node(void* p, std::size_t size, std::size_t alignment) noexcept
         {
+            UpstreamKinds::get().given_back(p, false, 1, size);
             SimHeap::get().release(owner_, p, size, alignment, true);
+        }
+        void* allocate_array(std::size_t count, std::size_t size, std::size_t alignment)
+        {
+            void* p = SimHeap::get().request(owner_, count * size, alignment);
+            if (!p)
+                throw sim_bad_alloc();
+            UpstreamKinds::get().taken(p, true, count, size);
+            return p;
+        }
+        void deallocate_array(void* p, std::size_t count, std::size_t size, std::size_t alignment) noexcept
+        {
+            UpstreamKinds::get().given_back(p, true, count, size);
+            SimHeap::get().release(owner_, p, count * size, alignment, true);
         }
         std::size_t max_node_size() const noexcept
         {
